@@ -21,6 +21,7 @@ func conversionLoops(c *core.Ctx) {
 	p := c.P
 	const ruleA, ruleB = "copy-has-room", "element-conversion-is-stateless"
 	c.Floor(ruleA, 3)
+	c.Floor("conversion-covers-every-element", 6)
 	var roots []*core.Fn
 	for _, pr := range c34Pairs {
 		for _, k := range []string{pr.to, pr.from} {
@@ -34,6 +35,55 @@ func conversionLoops(c *core.Ctx) {
 		if f.Decl.Body == nil || isTestFn(p, f) {
 			continue
 		}
+		// (c) a list conversion loop stores one element per iteration: nothing inside the loop decides whether the
+		// element is converted (a skipped element is missing from the result, so the round trip loses it)
+		ast.Inspect(f.Decl.Body, func(n ast.Node) bool {
+			var body *ast.BlockStmt
+			switch l := n.(type) {
+			case *ast.RangeStmt:
+				body = l.Body
+			case *ast.ForStmt:
+				body = l.Body
+			}
+			if body == nil {
+				return true
+			}
+			ast.Inspect(body, func(m ast.Node) bool {
+				switch m.(type) {
+				case *ast.RangeStmt, *ast.ForStmt, *ast.FuncLit:
+					return m == ast.Node(body)
+				}
+				as, ok := m.(*ast.AssignStmt)
+				if !ok || len(as.Lhs) != 1 || len(as.Rhs) != 1 {
+					return true
+				}
+				isStore := false
+				if ie, ok := core.Unparen(as.Lhs[0]).(*ast.IndexExpr); ok {
+					if _, isSlice := f.Pkg.TypesInfo.TypeOf(ie.X).Underlying().(*types.Slice); isSlice {
+						isStore = true
+					}
+				}
+				if call, ok := core.Unparen(as.Rhs[0]).(*ast.CallExpr); ok {
+					if id, ok := call.Fun.(*ast.Ident); ok && id.Name == "append" && len(call.Args) >= 1 && core.SameExpr(f.Pkg, call.Args[0], as.Lhs[0]) {
+						isStore = true
+					}
+				}
+				if !isStore {
+					return true
+				}
+				c.Analysed(f)
+				cond := ""
+				for _, ft := range core.CtlFactsAt(f, as) {
+					if ft.Expr != nil && ft.Expr.Pos() >= body.Pos() && ft.Expr.End() <= body.End() {
+						cond = core.ExprString(ft.Expr)
+					}
+				}
+				c.Check(cond == "", "conversion-covers-every-element", fmt.Sprintf("%s stores %s for every element", f.Name(), core.ExprString(as.Lhs[0])), as.Pos(),
+					"inside the conversion loop the element is stored only under `"+cond+"`: elements for which it does not hold are missing from the converted list, so converting a route to its API form and back does not give the same route")
+				return true
+			})
+			return true
+		})
 		// (a)
 		ast.Inspect(f.Decl.Body, func(n ast.Node) bool {
 			call, ok := n.(*ast.CallExpr)
